@@ -19,6 +19,16 @@ CHECKS = {
             'rest is a cheap differential against an obviously-correct oracle.', '3/C17'),
 }
 
+CHECKS.update({
+    'C01': ('Hypothesis composite program generator; differential: hidc+VM event stream vs source-level reference interpreter',
+            'Generated-input search over well-typed sequential programs x argv x word size x {generous, minimal} stack, '
+            'oracle = independent reference interpreter. Right level: the property quantifies over all programs; a '
+            'differential against an executable semantics is the strongest decidable check available here.', '3/C01'),
+    'C02': ('Hypothesis composite program generator with time-travel constructs; differential vs prophecy reference interpreter (choice-script re-execution)',
+            'Generated-input search over programs with try/undo/stop, preempt, ??, (preemptive/recursive) defeat functions and '
+            'several try blocks per run; oracle = reference interpreter resolving choice points by backtracking.', '3/C02'),
+})
+
 NOT_YET = {}
 
 
